@@ -36,6 +36,11 @@ def generate(rng, n, tier):
                 items = [("E" if mask >> i & 1 else base[i]) for i in range(ln)]
                 for kind in ("all", "any", "where", "having"):
                     yield {"kind": kind, "items": items, "cls": "generic", "eform": 0}
+    # long filter lists (the fold must be the same fold at every length): a few hundred members, empties sprinkled in
+    for ln in (201, 260):
+        for kind in ("all", "any", "where"):
+            items = [("E" if (i % 37 == 5) else "(F('f%d') == %d)" % (i, i)) for i in range(ln)]
+            yield {"kind": kind, "items": items, "cls": "generic", "eform": 0}
     for _ in range(n):
         ln = rng.choice([0, 1, 2, 2, 3, 3, 4, 5, 6, 8])
         items = []
@@ -101,7 +106,11 @@ def examine(case):
         # equivalent to the left-to-right chain of the non-empty members
         if without:
             op = "&" if kind == "all" else "|"
-            chain = ns.ev("(" * (len(without) - 1) + (" %s " % op).join(w + (")" if i > 0 else "") for i, w in enumerate(without)))
+            # built with the Python operators, member by member (nested source text hits the parser's nesting limit)
+            members = [ns.ev(w) for w in without]
+            chain = members[0]
+            for m in members[1:]:
+                chain = (chain & m) if op == "&" else (chain | m)
             rc = sql_of(chain)
             if rc != rb:
                 F("fold-order", "%s renders %s but the left-to-right chain renders %s" % (src_n, rb, rc))
